@@ -95,3 +95,18 @@ Print Assumptions C10_stop_before_first_offer_sends_nothing.
 Print Assumptions C10_stop_after_offer_one_stopoffer.
 Print Assumptions C10_pending_answer_dropped_after_stop.
 Print Assumptions C10_stop_idempotent.
+
+(* the offer coroutine ServiceInstance._offer_task as translated from the source text (harness/gen_logic.py gen_offer_task) *)
+Theorem C10_offer_next_is_the_translated_source : forall t i inst w,
+  offer_next t i inst w
+  = gen_offer_next i (t_rep_max (cfg w)) (t_rep_base (cfg w)) (t_cyclic (cfg w))
+      (fun d => task_sleep t (TOffer inst) d 2 i w) (finish_task t w) (fun d => task_sleep t (TOffer inst) d 3 0 w).
+Proof. exact offer_next_is_the_translated_source. Qed.
+Theorem C10_offer_cancelled_is_the_translated_source : forall t w tk inst,
+  get_task t w = Some tk -> tk_done tk = false -> tk_must_cancel tk = true -> tk_kind tk = TOffer inst -> tk_pc tk = 2 ->
+  task_step t w
+  = let w1 := set_can_answer inst false w in
+    finish_task t (if gen_offer_finally_sends_stop (t_cyclic (cfg w1)) then inst_send_offer inst None true w1 else w1).
+Proof. exact offer_cancelled_is_the_translated_source. Qed.
+Print Assumptions C10_offer_next_is_the_translated_source.
+Print Assumptions C10_offer_cancelled_is_the_translated_source.
